@@ -8,7 +8,7 @@ SPEC = {
         "C06_spell_guarded_partial", "C06_spell_plain", "C06_spell_single_quoted", "C06_spell_double_noescape", "C06_spell_double_selfescape",
         "C06_spell_literal", "C06_spell_folded_noblank", "C06_spell_folded_blank_lines", "C06_spell_plain_multiline", "C06_spell_flow_multiline",
         "C06_read_range_lands", "C06_positions_nonempty_inside", "C06_rule_lines_enclose", "C06_rule_lines_inside_file", "C06_lines_of_encloses",
-        "C06_shift_equivariance", "C06_carets_exact", "C06_carets_single_range", "C06_caret_split_range_fixed", "C06_plain_end_to_end",
+        "C06_shift_equivariance", "C06_carets_exact", "C06_carets_single_range", "C06_carets_any_line_ascii", "C06_carets_after_non_ascii", "C06_caret_split_range_fixed", "C06_plain_end_to_end",
         "C06_refuted_dq_escape", "C06_dq_escapes_in_sync", "C06_full_statement_refuted",
         "C06_folded_blank_fixed", "C06_block_header_fixed", "C06_shallow_indent_fixed", "C06_continued_trailing_space_fixed",
         "C06_block_leading_blank_fixed", "C06_multibyte_prefix_fixed", "C06_anchor_prefix_fixed",
@@ -21,7 +21,7 @@ SPEC = {
     "level": "proof",
     "trusted_base": [
         "Coq 8.16.1 kernel + VM (vm_compute: the _refuted witnesses, the non-vacuity examples, the correspondence evaluation); "
-        "no axioms (Print Assumptions of all 36 theorems: closed under the global context)",
+        "no axioms (Print Assumptions of all 38 theorems: closed under the global context)",
         "hand-written Gallina model Model/Position.v of internal/diags/position.go (NewPositionRange, appendPosition, countLeadingSpace, "
         "byteColumn, skipBlanks, readRange, AddOffset, Lines, Len; Go's UTF-8 rune iteration is Model/CommentsUnicode.v decode_all) and of the lines accumulation of parseRule / YamlMap.Lines; tied to the current source on every run "
         "by differential execution only (no translator tables): the harness is compiled into the repo module and runs the REAL "
@@ -37,7 +37,7 @@ SPEC = {
         "outside all classes), the serialisation of cases into Coq terms, the replication of which yaml nodes/minColumn/offsets the parser "
         "passes to newYamlNode (walk of the yaml forest incl. YAML embedded in a block scalar)",
         "modelled not verified: yaml.v3 (node line/column/value are inputs), PromQL parser and the offline checks (their Diagnostics are "
-        "inputs to the oracle), InjectDiagnostics' rendering (only its readRange(min(first,Len),min(last,Len)) call is modelled)",
+        "inputs to the oracle), InjectDiagnostics: its readRange(min(first,Len),min(last,Len)) call and its caret line (caret_marks_line: one mark per character of the source line, any bytes) are modelled and compared with the real output, the rest of the rendering is not",
     ],
     "assumptions": [
         "line tables contain no '\\n' byte inside a line (true of ContentReader.lines by construction; premise of the block theorems for the "
